@@ -1577,3 +1577,10 @@ M('C16', 'unchanged axes get the inner slice on both arrays', 'odl/util/numerics
   """        else:
             lhs_slc.append(inner_slc)
             rhs_slc.append(inner_slc)""", '3x4->3x7')
+M('C15', 'dual-use wrapper accepts real scalars only', DUF,
+  "            if isinstance(out, np.ndarray) or np.isscalar(out):",
+  "            if isinstance(out, (np.ndarray, float, int)):", 'cconst')
+M('C15', 'interpolation weights cast to the value dtype', DUF,
+  "                    weight = weight * w_lo",
+  "                    weight = (weight * w_lo).astype(self.values.dtype, copy=False)",
+  'int64')
